@@ -322,9 +322,12 @@ def run_one(seed, tape, opts):
                 q = tape.pick(mineacc, "aq")
                 what = ("pause", "resume", "stop")[k - 4]
                 app_pause_reqs[0] += 1
+                # (the request is on record before the call: whatever the
+                # application asks for from inside callbacks that the call
+                # itself triggers comes later and counts as its last word)
+                app_paused[q] = (what == "pause")
                 try:
                     getattr(q.transport, what + "Producing")()
-                    app_paused[q] = (what == "pause")
                 except Exception as e:
                     V("C15.app_%s_raised.%s" % (what, type(e).__name__),
                       "inbound data is paused exactly while an application "
